@@ -58,6 +58,7 @@ const HZ_EASING: &str = "easing_power_negative";
 const HZ_CHAIN: &str = "gain_chain_overflow";
 const HZ_COMP_THR: &str = "compressor_threshold_infinite_f32";
 const HZ_EQ_GAIN: &str = "eq_gain_underflow";
+const HZ_SEEK: &str = "seek_beyond_loop_cost_unbounded";
 
 // ------------------------------------------------------------------------------------------------
 // scene description (pure data)
@@ -163,6 +164,8 @@ struct CmdSpec {
 	rate: f64,
 	pan: f32,
 	u: f64,
+	/// argument of seek_to / seek_by (seconds)
+	seek: f64,
 	mixv: f32,
 	speed: ClockSpeed,
 	freq: f64,
@@ -647,8 +650,8 @@ fn exec_scene(sc: &Scene, want_cases: bool) -> SceneResult {
 								3 => s.set_volume(Decibels(c.db), tw),
 								4 => s.set_playback_rate(PlaybackRate(c.rate), tw),
 								5 => s.set_panning(Panning(c.pan), tw),
-								6 => s.seek_to(c.u * 0.02),
-								7 => s.seek_by((c.u - 0.5) * 0.02),
+								6 => s.seek_to(c.seek),
+								7 => s.seek_by(c.seek - 0.01),
 								8 => s.resume_at(tw.start_time, Tween { start_time: StartTime::Immediate, ..tw }),
 								_ => {
 									let a = c.u * 0.005;
@@ -973,14 +976,16 @@ fn neut_chain(sc: &mut Scene) -> bool {
 	});
 	true
 }
-/// F33: an effect parameter outside the range its doc comment states (or that F33 lists), one
-/// sub-trigger per parameter so that the attribution names the parameter:
-///   EQ q "should be greater than 0.0" (eq_filter/builder.rs); reverb feedback "1.0 gives an infinitely
-///   reverberating room", stereo width "0.0 being fully mono, 1.0 being fully stereo" (reverb/builder.rs);
+/// F33: an effect parameter outside the range its doc comment states, one sub-trigger per parameter
+/// so that the attribution names the parameter.  Ranges taken from the doc comments:
+///   reverb feedback "1.0 gives an infinitely reverberating room", stereo width "0.0 being fully mono,
+///   1.0 being fully stereo" (effect/reverb/builder.rs), damping (same unit range; listed by F33);
 ///   compressor ratio: only ratios above 0 are described ("Ratios between 0.0 and 1.0 will actually
-///   expand", compressor/builder.rs); Mix "Valid mix values range from 0.0 to 1.0" (mix.rs);
-///   listed by F33 without a doc comment: filter resonance outside [0, 1), reverb damping outside [0, 1],
-///   frequencies <= 0 or beyond Nyquist, delay feedback >= 0 dB (loop gain >= 1).
+///   expand the audio", effect/compressor/builder.rs); delay feedback with a loop gain >= 1 (>= 0 dB; listed by F33).
+/// Deliberately NOT triggers (kira clamps them, so they cannot be the cause of a failure; a failure
+/// in a scene that merely contains one of these is reported unattributed): Mix outside [0,1]
+/// (`.clamp(0.0, 1.0)` in every effect), filter resonance (`.clamp(0.0, 1.0)`), cutoff / EQ frequency
+/// (`.clamp(0.0001, 0.5)` relative to the sample rate), EQ q <= 0 (`q.max(MIN_Q)`), low device sample rates.
 fn out_unit(x: f64) -> bool {
 	!(0.0..=1.0).contains(&x)
 }
@@ -988,20 +993,9 @@ fn neut_comp_ratio(sc: &mut Scene) -> bool {
 	let mut hit = false;
 	for_each_fx(sc, &mut |fx| {
 		if let Fx::Compressor { ratio, .. } = fx {
-			if !((*ratio as f32) > 0.0) {
+			// <= 0 once cast to f32, or so large that a tween from it to an ordinary ratio cancels to exactly 0
+			if !((*ratio as f32) > 0.0) || ratio.abs() >= 1e15 {
 				*ratio = 2.0;
-				hit = true;
-			}
-		}
-	});
-	hit
-}
-fn neut_eq_q(sc: &mut Scene) -> bool {
-	let mut hit = false;
-	for_each_fx(sc, &mut |fx| {
-		if let Fx::Eq { q, .. } = fx {
-			if !(*q > 0.0) {
-				*q = 1.0;
 				hit = true;
 			}
 		}
@@ -1044,43 +1038,6 @@ fn neut_reverb_width(sc: &mut Scene) -> bool {
 	});
 	hit
 }
-fn neut_resonance(sc: &mut Scene) -> bool {
-	let mut hit = false;
-	let mut res = |x: &mut f64, hit: &mut bool| {
-		if !(*x >= 0.0 && *x < 1.0) {
-			*x = 0.0;
-			*hit = true;
-		}
-	};
-	for_each_fx(sc, &mut |fx| match fx {
-		Fx::Filter { res: r, .. } => res(r, &mut hit),
-		Fx::Delay { fbfx: Some((_, q)), .. } => res(q, &mut hit),
-		_ => {}
-	});
-	hit
-}
-fn neut_freq(sc: &mut Scene) -> bool {
-	let mut hit = false;
-	let nyq = sc.sr as f64 / 2.0;
-	let mut freq = |x: &mut f64, hit: &mut bool| {
-		if !(*x > 0.0 && *x <= nyq) {
-			*x = (nyq / 2.0).min(1000.0);
-			*hit = true;
-		}
-	};
-	for_each_fx(sc, &mut |fx| match fx {
-		Fx::Filter { cutoff, .. } => freq(cutoff, &mut hit),
-		Fx::Eq { f, .. } => freq(f, &mut hit),
-		Fx::Delay { fbfx: Some((c, _)), .. } => freq(c, &mut hit),
-		_ => {}
-	});
-	for op in sc.ops.iter_mut() {
-		if let Op::Cmd(c) = op {
-			freq(&mut c.freq, &mut hit);
-		}
-	}
-	hit
-}
 fn neut_delay_fb(sc: &mut Scene) -> bool {
 	let mut hit = false;
 	for_each_fx(sc, &mut |fx| {
@@ -1093,31 +1050,16 @@ fn neut_delay_fb(sc: &mut Scene) -> bool {
 	});
 	hit
 }
-fn neut_mix(sc: &mut Scene) -> bool {
-	let mut hit = false;
-	let mut mixf = |x: &mut f32, hit: &mut bool| {
-		if !(0.0..=1.0).contains(x) {
-			*x = 0.5;
-			*hit = true;
-		}
-	};
-	for_each_fx(sc, &mut |fx| match fx {
-		Fx::Filter { mix, .. } | Fx::Delay { mix, .. } | Fx::Reverb { mix, .. } | Fx::Compressor { mix, .. } | Fx::Distortion { mix, .. } => mixf(mix, &mut hit),
-		_ => {}
-	});
-	for op in sc.ops.iter_mut() {
-		if let Op::Cmd(c) = op {
-			mixf(&mut c.mixv, &mut hit);
-		}
-	}
-	hit
-}
-/// the unit-range value of a command (resonance / reverb feedback, damping, width set through an effect handle)
+/// reverb feedback / damping / stereo width outside [0,1] set later through a kept reverb handle
 fn neut_cmd_unit(sc: &mut Scene) -> bool {
 	let mut hit = false;
+	let reverb_handle = sc.ops.iter().any(|o| matches!(o, Op::AddSub(s) if s.keep_fx_handles && s.fx.iter().any(|f| matches!(f, Fx::Reverb { .. }))));
+	if !reverb_handle {
+		return false;
+	}
 	for op in sc.ops.iter_mut() {
 		if let Op::Cmd(c) = op {
-			if !(c.u >= 0.0 && c.u < 1.0) {
+			if out_unit(c.u) {
 				c.u = 0.5;
 				hit = true;
 			}
@@ -1170,6 +1112,26 @@ fn neut_eq_gain(sc: &mut Scene) -> bool {
 	}
 	hit
 }
+/// proposed: seek_to / seek_by far beyond a loop region (Transport::seek_to subtracts the loop length once per iteration)
+fn neut_seek(sc: &mut Scene) -> bool {
+	let looping = sc.ops.iter().any(|o| match o {
+		Op::Play(p) => p.looped.is_some(),
+		Op::Cmd(c) => c.which % 10 == 9,
+		_ => false,
+	});
+	let mut hit = false;
+	if looping {
+		for op in sc.ops.iter_mut() {
+			if let Op::Cmd(c) = op {
+				if c.seek.abs() > 1e3 {
+					c.seek = 0.01;
+					hit = true;
+				}
+			}
+		}
+	}
+	hit
+}
 const TWO53: f64 = 9007199254740992.0;
 /// F8: a playback rate whose per-frame increment sample_rate * |rate| * dt reaches 2^53
 fn neut_rate(sc: &mut Scene) -> bool {
@@ -1217,16 +1179,13 @@ fn classes() -> Vec<Class> {
 		c(HZ_EASING, "", &["nan", "hang"], neut_easing),
 		c(HZ_COMP_THR, "", NAN, neut_comp_thr),
 		c(HZ_EQ_GAIN, "", NAN, neut_eq_gain),
-		c(HZ_PARAM, "compressor ratio <= 0", NAN, neut_comp_ratio),
-		c(HZ_PARAM, "eq q <= 0", NAN, neut_eq_q),
+		c(HZ_PARAM, "compressor ratio <= 0 (or >= 1e15: a tween from it cancels to 0)", NAN, neut_comp_ratio),
 		c(HZ_PARAM, "reverb feedback outside [0,1]", NAN, neut_reverb_fb),
 		c(HZ_PARAM, "reverb damping outside [0,1]", NAN, neut_reverb_damp),
 		c(HZ_PARAM, "reverb stereo width outside [0,1]", NAN, neut_reverb_width),
 		c(HZ_PARAM, "delay feedback >= 0 dB", NAN, neut_delay_fb),
-		c(HZ_PARAM, "filter resonance outside [0,1)", NAN, neut_resonance),
-		c(HZ_PARAM, "frequency <= 0 or beyond Nyquist", NAN, neut_freq),
-		c(HZ_PARAM, "mix outside [0,1]", NAN, neut_mix),
-		c(HZ_PARAM, "unit-range value set through an effect handle", NAN, neut_cmd_unit),
+		c(HZ_PARAM, "reverb feedback / damping / width outside [0,1] set through its handle", NAN, neut_cmd_unit),
+		c(HZ_SEEK, "", HANG, neut_seek),
 		c(HZ_CLOCK, "", HANG, neut_clock),
 		c(HZ_RATE, "", HANG, neut_rate),
 		c(HZ_RATE_COST, "", HANG, neut_rate_cost),
@@ -1394,6 +1353,14 @@ impl<'a> Gen<'a> {
 			(self.r.unit_f64() * 72.0 - 66.0) as f32
 		}
 	}
+	/// a decibel value that may reach an EQ gain
+	fn eq_db(&mut self) -> f32 {
+		let v = self.db();
+		if 10.0f64.powf(v as f64 / 40.0) == 0.0 && !self.on(HZ_EQ_GAIN) {
+			return -100.0;
+		}
+		v
+	}
 	fn mix(&mut self) -> f32 {
 		if self.boundary && self.r.chance(1, 4) {
 			*self.r.pick(&[0.0f32, 1.0, -0.0, -1.0, 2.0, 1e30, -1e30, 0.5, 1e-40])
@@ -1423,6 +1390,13 @@ impl<'a> Gen<'a> {
 		} else {
 			0.05 + 0.85 * self.r.unit_f64()
 		}
+	}
+	fn seek(&mut self) -> f64 {
+		let v = self.unit() * 0.02;
+		if v.abs() > 1e3 && !self.on(HZ_SEEK) {
+			return 0.02;
+		}
+		v
 	}
 	fn dur(&mut self) -> Duration {
 		match self.r.below(if self.boundary { 7 } else { 4 }) {
@@ -1496,7 +1470,7 @@ impl<'a> Gen<'a> {
 	fn fx(&mut self, allow_link: bool) -> Fx {
 		match self.r.below(9) {
 			0 => Fx::Filter { mode: *self.r.pick(&[FilterMode::LowPass, FilterMode::BandPass, FilterMode::HighPass, FilterMode::Notch]), cutoff: self.freq(), linked: allow_link && self.r.chance(1, 3), res: self.unit(), mix: self.mix() },
-			1 => Fx::Eq { kind: *self.r.pick(&[EqFilterKind::Bell, EqFilterKind::LowShelf, EqFilterKind::HighShelf]), f: self.freq(), gain: self.db(), q: 0.1 + self.unit() * 4.0 },
+			1 => Fx::Eq { kind: *self.r.pick(&[EqFilterKind::Bell, EqFilterKind::LowShelf, EqFilterKind::HighShelf]), f: self.freq(), gain: self.eq_db(), q: 0.1 + self.unit() * 4.0 },
 			2 => {
 				let time = match self.r.below(if self.boundary { 5 } else { 3 }) {
 					0 => Duration::from_micros(self.r.below(30_000) + 100),
@@ -1552,7 +1526,7 @@ impl<'a> Gen<'a> {
 		Op::Callback { frames, ch }
 	}
 	fn cmd(&mut self) -> CmdSpec {
-		CmdSpec { sel: self.r.next(), which: self.r.next(), tw: self.tw(), db: self.db(), rate: self.rate(), pan: self.pan(), u: self.unit(), mixv: self.mix(), speed: self.clock_speed(), freq: self.freq(), pos: self.pos() }
+		CmdSpec { sel: self.r.next(), which: self.r.next(), tw: self.tw(), db: self.eq_db(), rate: self.rate(), pan: self.pan(), u: self.unit(), seek: self.seek(), mixv: self.mix(), speed: self.clock_speed(), freq: self.freq(), pos: self.pos() }
 	}
 	fn sub(&mut self) -> SubSpec {
 		let n = self.r.below(3) as usize;
@@ -1792,7 +1766,7 @@ fn plain_play(sr: u32, n: usize, kind: u8) -> PlaySpec {
 	PlaySpec { frames: FramesSpec { n, kind, seed: 1 }, ssr: sr, vol: 0.0, pan: 0.0, rate: 1.0, reverse: false, looped: None, start: None, fade_in: None, start_time: St::Immediate, slice: None, on: None }
 }
 fn plain_cmd() -> CmdSpec {
-	CmdSpec { sel: 0, which: 0, tw: Tw { st: St::Immediate, dur: Duration::from_millis(10), easing: Easing::Linear }, db: 0.0, rate: 1.0, pan: 0.0, u: 0.5, mixv: 0.5, speed: ClockSpeed::TicksPerSecond(2.0), freq: 1000.0, pos: [0.0; 3] }
+	CmdSpec { sel: 0, which: 0, tw: Tw { st: St::Immediate, dur: Duration::from_millis(10), easing: Easing::Linear }, db: 0.0, rate: 1.0, pan: 0.0, u: 0.5, seek: 0.01, mixv: 0.5, speed: ClockSpeed::TicksPerSecond(2.0), freq: 1000.0, pos: [0.0; 3] }
 }
 fn corpus() -> Vec<(&'static str, &'static str, Scene)> {
 	let cb = Op::Callback { frames: 64, ch: 2 };
@@ -1837,6 +1811,10 @@ fn corpus() -> Vec<(&'static str, &'static str, Scene)> {
 	s.main_fx = vec![Fx::Eq { kind: EqFilterKind::Bell, f: 1000.0, gain: -1e30, q: 1.0 }];
 	s.ops = vec![Op::Play(plain_play(48000, 100, 1)), cb.clone()];
 	v.push((HZ_EQ_GAIN, "EqFilterBuilder::new(Bell, 1000.0, Decibels(-1e30), 1.0)", s));
+	// proposed: seek far beyond a loop region
+	let mut s = base_scene(48000, 64);
+	s.ops = vec![Op::Play(PlaySpec { looped: Some((0.0, 0.001)), ..plain_play(48000, 100, 1) }), Op::Cmd(CmdSpec { which: 6, seek: 1e300, ..plain_cmd() }), cb.clone()];
+	v.push((HZ_SEEK, "sound.seek_to(1e300) on a sound with a loop region", s));
 	// F7
 	let mut s = base_scene(48000, 64);
 	s.ops = vec![Op::AddClock { speed: ClockSpeed::SecondsPerTick(0.0), start: true }, cb.clone(), cb.clone()];
@@ -1921,6 +1899,19 @@ pub fn run(args: &Args) {
 		let mut rng = Rng::new(seed);
 		let mut g = Gen { r: &mut rng, boundary: st == "b", listed: &listed };
 		let sc = if st == "s" { g.scenario() } else { g.random_scene() };
+		if std::env::var("C01_MIN").is_ok() {
+			// attribution + minimisation of this scene, then a traced run of the resulting scene
+			crate::util::install_panic_hook();
+			crate::alloc::TRACE.store(false, std::sync::atomic::Ordering::Relaxed);
+			let mut hl = 20;
+			if let (_, Some(f)) = outcome(&sc, 2.5, &mut hl) {
+				let v = attribute(&sc, f, 2.5, &mut hl);
+				println!("class {:?} {} | {} | {}\n{:#?}", v.class, v.detail, v.fail.what, v.trail, v.scene);
+			} else {
+				println!("the scene does not fail");
+			}
+			return;
+		}
 		println!("{sc:#?}");
 		let r = exec_scene(&sc, false);
 		println!("{:?} callbacks {} drops {}", r.fail, r.callbacks, r.drops_seen);
